@@ -14,7 +14,9 @@ def stream(file=sys.stdout):
     if isinstance(file, str):
         filename = file + ACTIVE_SUFFIX
         basedir = os.path.dirname(filename)
-        os.makedirs(basedir, exist_ok=True)
+        if basedir:
+            # (a bare file name is a file in the current directory)
+            os.makedirs(basedir, exist_ok=True)
         file = open(filename, 'w')
 
     def restart():
